@@ -60,10 +60,10 @@ def make_ids(kind, n):
     """Ids and tags of one kind.  Ids whose text is a prefix of another id's text, and tags likewise, are included on
     purpose (file names are built from the string forms)."""
     if kind == 'int':
-        return [1, 10, 12, 101][:n], [None, 1, 10]
+        return [1, 10, 12, 0][:n], [None, 0, 1]
     if kind == 'uuid':
         return [uuid.UUID(int=(0xABC << 64) + i) for i in range(n)], [None, uuid.UUID(int=77), uuid.UUID(int=78)]
-    return ['calc', 'calc2', 'calc21', 'other'][:n], [None, 'alpha', 'alpha_2']
+    return ['calc', 'calc2', 'calc21', 'other'][:n], [None, 'alpha', 'alpha_2']  # ('' as a tag is not separator-free text, left out)
 
 
 def random_case(rng, tier):
